@@ -245,6 +245,7 @@ def fraction_work(payload):
 
 
 def run(tier, seed, only=None):
+    pool.set_recycle(10)
     rep = Report(
         PID, tier, seed, "exploration",
         rule="decay groups x all non-empty chain subsets (sum of single-chain tensors), ordered pairs of selections, 5 couplings per chain, all resonance-name selections of size 1-2 against "
